@@ -472,6 +472,46 @@ def check_multi_override(order, how, acc):
             case))
 
 
+def check_composer_reuse(order, acc):
+    """One Composer that carries a _schema override generates several
+    composites (with and without a config, with initial_state() /
+    get_parameters() calls in between): the override reaches the named
+    process in every one of them."""
+    case = {'part': 'composer-reuse', 'order': order}
+    acc.case(key=('composer-reuse', order), outcome='override')
+    ov = {'p': {'port': {'x': {'_default': 12345}}}}
+    try:
+        composer = ProbeComposer({'template': 'flat', '_schema': ov})
+        got = []
+        for call in order:
+            if call == 'plain':
+                comp = composer.generate()
+            elif call == 'config':
+                comp = composer.generate({'rename': ''})
+            elif call == 'path':
+                comp = composer.generate(path=('a',))
+                comp = {'processes': comp['processes']['a']}
+            elif call == 'initial_state':
+                composer.initial_state()
+                continue
+            else:
+                composer.get_parameters()
+                continue
+            got.append(comp['processes']['p'].get_schema()['port']['x'].get(
+                '_default'))
+    except Exception as e:  # noqa
+        acc.violate(fw.violation(
+            'C16.crash', f'composer-reuse:{type(e).__name__}',
+            f'{case}: {e!r}', case))
+        return
+    if any(g != 12345 for g in got):
+        acc.violate(fw.violation(
+            'C16.override', 'composer-override-not-in-every-composite',
+            f'one composer, calls {list(order)}: the overridden default of '
+            f'p.port.x in the generated composites is {got} (12345 '
+            f'expected in all)', case))
+
+
 def check_late_override(tname, acc):
     """An override merged AFTER the composite was loaded once still
     reaches the store and the engine built afterwards."""
@@ -679,6 +719,9 @@ def run_job(job, acc):
     if kind == 'multi-override':
         check_multi_override(job[1], job[2], acc)
         return
+    if kind == 'composer-reuse':
+        check_composer_reuse(job[1], acc)
+        return
     if kind == 'override-survives':
         check_override_survives(job[1], job[2], acc)
         return
@@ -715,6 +758,11 @@ def jobs(ctx):
         for as_step in (False, True):
             for renamed in (False, True):
                 out.append(('process-generate', path, as_step, renamed))
+    calls = ('plain', 'config', 'path', 'initial_state', 'parameters')
+    for order in itertools.permutations(calls, 3):
+        if order[-1] in ('initial_state', 'parameters'):
+            continue
+        out.append(('composer-reuse', order + ('plain', 'config')))
     for order in (('inner', 'p'), ('p', 'inner')):
         for how in ('composer', 'composite', 'merge'):
             out.append(('multi-override', order, how))
@@ -744,6 +792,8 @@ def replay(case):
         check_merges(tup(case['sequence']), acc)
     elif case['part'] == 'late-override':
         check_late_override(case['template'], acc)
+    elif case['part'] == 'composer-reuse':
+        check_composer_reuse(tup(case['order']), acc)
     elif case['part'] == 'multi-override':
         check_multi_override(tup(case['order']), case['how'], acc)
     elif case['part'] == 'meta':
